@@ -1,4 +1,5 @@
 import BumpVerif.Model.RsVec
+import BumpVerif.Model.Vec
 /-!
 # Primitives of the function-body translator for `src/collections/vec.rs`
 
@@ -62,6 +63,9 @@ def read (i : Nat) (s : VW) : Option Elem := s.1.read i
 
 /-- `ptr::copy(p.add(src), p.add(dst), n)` -/
 def copy (c : Cfg) (src dst n : Nat) (s : VW) : VW × Outcome Unit := (s.1.copy c src dst n s.2, .ok ())
+
+/-- `mem::swap(&mut *p.add(i), &mut *p.add(j))` -/
+def swap (i j : Nat) (s : VW) : VW × Outcome Unit := (({ s.1 with slots := swapSlots s.1.slots i j }, s.2), .ok ())
 
 /-- drop glue of an owned local while unwinding (a second panic here would abort the process) -/
 def drop_elem (c : Cfg) (e : Elem) (s : VW) : VW := (s.1, (dropElem c s.2 e).1)
